@@ -40,9 +40,9 @@ func zzBlockedSpec(g *Graph, t *Task) bool {
 	return t.State == "todo" && t.ClaimedBy == "" && !zzReadySpec(g, t)
 }
 
-func zzC08Graph() *Graph {
+func zzC08Graph(spec string) *Graph {
 	g := &Graph{}
-	zzHavoc("g", g, "3;Results=0;Deps=3;RDeps=0;Meta=0;Tombstones=0")
+	zzHavoc("g", g, spec)
 	// I1: Tasks[k].ID == k
 	for k, t := range g.Tasks {
 		zzAssume(t.ID == k)
@@ -50,8 +50,16 @@ func zzC08Graph() *Graph {
 	return g
 }
 
-func zzC08_ReadyBlocked() {
-	g := zzC08Graph()
+func zzC08_ReadyBlocked_N3() {
+	zzC08ReadyBlocked("3;Results=0;RDeps=0;Meta=0;Tombstones=0")
+}
+
+func zzC08_ReadyBlocked_N4() {
+	zzC08ReadyBlocked("4;Results=0;RDeps=0;Meta=0;Tombstones=0")
+}
+
+func zzC08ReadyBlocked(spec string) {
+	g := zzC08Graph(spec)
 	for _, t := range g.Tasks {
 		zzAssert(isReady(t, g) == zzReadySpec(g, t), "isReady==ReadySpec")
 		zzAssert(isBlocked(t, g) == zzBlockedSpec(g, t), "isBlocked==BlockedSpec")
